@@ -141,6 +141,26 @@ def lib_np_isscalar(e, st, a, kw, n):
     return VBool(z3.BoolVal(isinstance(a[0], VNum)))
 
 
+def lib_set(e, st, a, kw, n):
+    if not a:
+        return VPySet(())
+    x = a[0]
+    if isinstance(x, VTuple):
+        return VPySet(e.key_of(i_) for i_ in x.items)
+    if isinstance(x, VPySet):
+        return x
+    raise Unsupported("set() of " + type(x).__name__)
+
+
+def lib_float(e, st, a, kw, n):
+    x = e.num(a[0], st)
+    if isinstance(x, VNum):
+        return VNum(x.real())
+    if isinstance(x, (VStr, VNone, VSeq, VTuple)):
+        raise PyRaise("TypeError" if not isinstance(x, VStr) else "ValueError")
+    raise Unsupported("float() of " + type(x).__name__)
+
+
 def lib_dict(e, st, a, kw, n):
     d = {}
     for k_ in n.keywords:
@@ -154,7 +174,7 @@ def lib_dict(e, st, a, kw, n):
 def install(eng):
     eng.lib.update({
         "len": lib_len, "dict": lib_dict, "list": lib_list, "np.asarray": lib_asarray, "np.array": lib_asarray,
-        "zip": lib_zip, "enumerate": lib_enumerate, "range": lib_range, "np.ones_like": lib_np_ones_like, "np.isscalar": lib_np_isscalar,
+        "float": lib_float, "set": lib_set, "zip": lib_zip, "enumerate": lib_enumerate, "range": lib_range, "np.ones_like": lib_np_ones_like, "np.isscalar": lib_np_isscalar,
         "np.diff": lib_np_diff, "np.all": lib_np_all, "np.any": lib_np_any,
         "np.sort": lib_np_sort, "np.zeros": lib_np_zeros, "np.zeros_like": lib_np_zeros_like,
         "np.diag": lib_np_diag, "np.outer": lib_np_outer, "np.insert": lib_np_insert, "np.append": lib_np_append,
